@@ -234,6 +234,13 @@ class BaseDiscretizer(BaseEstimator, TransformerMixin):
             if len(self.features_casting.get(raw_feature)) == 0:
                 self.features_casting.pop(raw_feature)
 
+    def _check_is_not_fitted(self) -> None:
+        """Checks that the discretizer has not been fitted yet, before anything is modified"""
+        assert not self.is_fitted, (
+            " - [Discretizer] This Discretizer has already been fitted. "
+            "Fitting it anew could break established orders. Please initialize a new one."
+        )
+
     def _cast_features(self, X: DataFrame) -> DataFrame:
         """Casts the features of a DataFrame using features_casting to duplicate columns
 
